@@ -1,0 +1,29 @@
+//go:build verif
+
+package tasklane
+
+import (
+	"context"
+	"sync/atomic"
+)
+
+// VerifHook is called on the lane's own goroutine (or the pushing goroutine) at every
+// protocol boundary, between two channel operations. Only present with build tag 'verif'.
+type VerifHook func(ctx context.Context, point string, lane int)
+
+var verifHook atomic.Pointer[VerifHook]
+
+// VerifSetHook installs (or, with nil, removes) the process-wide hook.
+func VerifSetHook(h VerifHook) {
+	if h == nil {
+		verifHook.Store(nil)
+		return
+	}
+	verifHook.Store(&h)
+}
+
+func verifPoint(ctx context.Context, point string, lane int) {
+	if h := verifHook.Load(); h != nil {
+		(*h)(ctx, point, lane)
+	}
+}
